@@ -27,6 +27,8 @@ def classify_raw(raw, type_name):
     except R.RefError as e:
         if "unknown type" in str(e):
             return ("blob",)
+        if "ill-parametrised" in str(e):
+            return ("illparam",)
         raise
     return ("value", cv, used)
 
@@ -280,9 +282,17 @@ class AuxRead(AuxBase):
         if lazy:
             tbl["decoded_lazily"] = True
             w.counters["probe:aux_lazy_decode"] += 1
+        # a read that decodes bytes from a file (whoever wrote them: the format is shared) also
+        # speaks for C08: "bytes produced by an independent implementation decode to the same value"
+        ov = ("C07", "C01", "C08") if lazy else ("C07", "C01")
+        if tbl.get("illparam") and tbl["state"] == "untouched" and tbl["type"] == tbl["type0"]:
+            # a leaf codec handed parameters (uint16_t<vendor_ext>): no statement says what a read
+            # gives (today DecodeError). The table stays 'untouched': its bytes must survive a save.
+            w.counters["probe:aux_read_illparam"] += 1
+            return Exp("any")
         if out.kind != "ok":
-            return Exp("ok", value="read", owner=("C07", "C01", "C14"))
-        check_read(w, op["c"], op["name"], tbl, out.raw, ("C07", "C01"), ("C07", "C09", "C01"), decoded_now=lazy)
+            return Exp("ok", value="read", owner=ov + ("C14",))
+        check_read(w, op["c"], op["name"], tbl, out.raw, ov, ("C07", "C09", "C01"), decoded_now=lazy)
         w.aux_refs[(op["c"], op["name"])] = out.raw
         if tbl["state"] == "untouched":
             tbl["state"] = "read"
